@@ -252,3 +252,19 @@ impl<'a, T> Drop for ChunkIter<'a, T> {
         }
     }
 }
+
+#[cfg(feature = "__verif")]
+impl<T> FileOrMemBuf<T> {
+    /// (file length, OS file offset, bytes still buffered in the writer) of the file variant.
+    pub(crate) fn verif_debug_state(&mut self) -> Option<(u64, u64, usize)> {
+        match self {
+            FileOrMemBuf::ChunkedTmpFile { write } => {
+                let file = write.clone_file();
+                let len = file.metadata().map(|m| m.len()).unwrap_or(u64::MAX);
+                let pos = (&*file).stream_position().unwrap_or(u64::MAX);
+                Some((len, pos, write.writer.buffer().len()))
+            }
+            FileOrMemBuf::Memory { .. } => None,
+        }
+    }
+}
